@@ -4,6 +4,7 @@ import (
 	"fmt"
 	"go/constant"
 	"go/token"
+	"go/types"
 	"strings"
 
 	"golang.org/x/tools/go/ssa"
@@ -12,7 +13,7 @@ import (
 func init() { register("C11", true, runC11) }
 
 func runC11(c *Check) {
-	c.Explanation = "Decides the frame and shape clauses of C11 for every profile and expression: Prune, PruneFrom and RemoveUninteresting can only re-assign Location.Line and Sample.Location (never Profile.Sample, Sample.Value, labels, or any element in place) (R1); every value assigned to those two fields is a suffix re-slice x[k:] of the same field of the same object, so the frames that remain are the root-side ones in their original order and nothing is reordered or invented (R2); RemoveUninteresting cannot reach Prune when drop_frames is empty (R3); the compiled expressions are the profile's strings wrapped as ^(...)$ (full match), drop/keep are not swapped, and names are simplified before matching (R4). Not decided: which frame is selected as the cut point, the first-user-frame exception, keep_frames semantics."
+	c.Explanation = "Decides the frame and shape clauses of C11 for every profile and expression: Prune, PruneFrom and RemoveUninteresting can only re-assign Location.Line and Sample.Location (never Profile.Sample, Sample.Value, labels, or any element in place) (R1); every value assigned to those two fields is a suffix re-slice x[k:] of the same field of the same object, so the frames that remain are the root-side ones in their original order and nothing is reordered or invented (R2); RemoveUninteresting cannot reach Prune when drop_frames is empty (R3); the compiled expressions are the profile's strings wrapped as ^(...)$ (full match), drop/keep are not swapped, and names are simplified before matching (R4). Also: the memoised match function stores exactly what it returns (R6), the loop-carried flag of the per-sample frame loop starts from a constant for every sample (R7), and a loop that re-slices the list it scans leaves right after the re-slice (R8). Not decided: which frame is selected as the cut point, regexp semantics."
 	p := c.P
 	m := newModAnalyzer(p)
 	prune := c.anchorFn("C11-R1", "profile", "(*Profile).Prune")
@@ -131,6 +132,7 @@ func runC11(c *Check) {
 	}
 	c.Floor("C11-R4", 5)
 	c.scanDirections(prune, pruneFrom)
+	c.pruneShape(prune, pruneFrom)
 }
 
 // scanDirections (R5): Prune looks for the first match scanning from the root, so its
@@ -430,4 +432,280 @@ func describeLeaves(ls []ssa.Value) string {
 		s = append(s, describeValue(l))
 	}
 	return strings.Join(s, " + ")
+}
+
+// pruneShape: three shape rules of the pruning code.
+//
+// R6 memo agreement: a function that memoises its answer (returns the cached value when
+// the key is present) must store into the cache exactly what it returns on that call;
+// otherwise the second lookup of a name answers differently from the first (keep_frames
+// ignored for repeated names).
+//
+// R7 per-sample state: a bool carried around the frame loop of a sample (the "a user frame
+// was seen" flag) enters that loop as a constant on every sample; a flag carried over from
+// the previous sample switches the first-user-frame guard off for all later samples.
+//
+// R8 first match only: a loop that scans a location's lines and re-slices that same field
+// leaves the loop right after the re-slice; continuing would index the already shortened
+// slice and cut a second time.
+func (c *Check) pruneShape(prune, pruneFrom *ssa.Function) {
+	p := c.P
+	// ---- R6
+	nMemo := 0
+	for _, root := range []*ssa.Function{prune, pruneFrom} {
+		forEachFuncAndAnon(root, func(f *ssa.Function) {
+			// the memo table: a map looked up with comma-ok whose hit value is returned
+			for _, b := range f.Blocks {
+				for _, ins := range b.Instrs {
+					mu, ok := ins.(*ssa.MapUpdate)
+					if !ok {
+						continue
+					}
+					isMemo := false
+					for _, b2 := range f.Blocks {
+						for _, i2 := range b2.Instrs {
+							if lk, ok := i2.(*ssa.Lookup); ok && lk.CommaOk && sameCellOrValue(lk.X, mu.Map) {
+								isMemo = true
+							}
+						}
+					}
+					if !isMemo || f.Signature.Results().Len() != 1 {
+						continue
+					}
+					nMemo++
+					key := "memo:" + fnName(f) + ":" + describeValue(mu.Value)
+					// every return reachable from the update without another update of the table
+					bad := ""
+					seen := map[*ssa.BasicBlock]bool{}
+					var walk func(b *ssa.BasicBlock, from int, env map[ssa.Value]ssa.Value)
+					walk = func(b *ssa.BasicBlock, from int, env map[ssa.Value]ssa.Value) {
+						for i := from; i < len(b.Instrs); i++ {
+							switch x := b.Instrs[i].(type) {
+							case *ssa.MapUpdate:
+								if sameCellOrValue(x.Map, mu.Map) {
+									return
+								}
+							case *ssa.Return:
+								r := x.Results[0]
+								if v, ok := env[r]; ok {
+									r = v
+								}
+								if !sameConstOrValue(r, mu.Value) {
+									bad = p.relFile(x.Pos())
+								}
+								return
+							}
+						}
+						for _, sc := range b.Succs {
+							if seen[sc] {
+								continue
+							}
+							seen[sc] = true
+							// phis of the successor take the value of the edge we arrive on
+							env2 := map[ssa.Value]ssa.Value{}
+							for k, v := range env {
+								env2[k] = v
+							}
+							for pi, pred := range sc.Preds {
+								if pred != b {
+									continue
+								}
+								for _, ins := range sc.Instrs {
+									ph, ok := ins.(*ssa.Phi)
+									if !ok {
+										break
+									}
+									e := ph.Edges[pi]
+									if v, ok := env[e]; ok {
+										e = v
+									}
+									env2[ph] = e
+								}
+							}
+							walk(sc, 0, env2)
+						}
+					}
+					walk(b, instrIndex(mu)+1, map[ssa.Value]ssa.Value{})
+					if bad == "" {
+						c.ok("C11-R6", key, p.relFile(mu.Pos()), "the memoised answer of "+fnName(f)+" is the answer returned", "every return reached from this cache update returns the stored value")
+					} else {
+						c.bad("C11-R6", key, p.relFile(mu.Pos()), fnName(f)+" caches "+describeValue(mu.Value)+" for a name but returns something else on that call ("+bad+"): the next frame with the same function name gets the cached answer, so keep_frames protects only the first occurrence of a name")
+					}
+				}
+			}
+		})
+	}
+	if nMemo == 0 {
+		c.undecided("C11-R6", "memo", p.relFile(prune.Pos()), "no memoised match function found in Prune")
+	}
+	// ---- R7
+	nFlag := 0
+	for _, b := range prune.Blocks {
+		for _, ins := range b.Instrs {
+			ph, ok := ins.(*ssa.Phi)
+			if !ok {
+				continue
+			}
+			if bt, ok := ph.Type().Underlying().(*types.Basic); !ok || bt.Kind() != types.Bool {
+				continue
+			}
+			// loop-header phi of a nested loop
+			isHdr := false
+			for _, pred := range b.Preds {
+				if b.Dominates(pred) {
+					isHdr = true
+				}
+			}
+			if !isHdr || nestingDepth(b) < 2 {
+				continue
+			}
+			nFlag++
+			key := "per-sample-flag:" + ph.Comment
+			bad := ""
+			for i, e := range ph.Edges {
+				if b.Dominates(b.Preds[i]) {
+					continue // back edge
+				}
+				if _, isConst := e.(*ssa.Const); !isConst {
+					bad = describeValue(e)
+				}
+			}
+			if bad == "" {
+				c.ok("C11-R7", key, p.relFile(ph.Pos()), "the flag "+ph.Comment+" starts from a constant for every sample", "the edge entering the frame loop carries a constant")
+			} else {
+				c.bad("C11-R7", key, p.relFile(ph.Pos()), "the flag "+ph.Comment+" enters a sample's frame loop with the value left by the previous sample ("+bad+"): once any sample had a non-matching frame, later samples whose root matches drop_frames are pruned completely")
+			}
+		}
+	}
+	if nFlag == 0 {
+		c.undecided("C11-R7", "per-sample-flag", p.relFile(prune.Pos()), "no loop-carried flag found in the sample loop of Prune")
+	}
+	// ---- R8
+	nSt := 0
+	for _, f := range []*ssa.Function{prune, pruneFrom} {
+		for _, b := range f.Blocks {
+			for _, ins := range b.Instrs {
+				st, ok := ins.(*ssa.Store)
+				if !ok {
+					continue
+				}
+				fa, ok := st.Addr.(*ssa.FieldAddr)
+				if !ok {
+					continue
+				}
+				T, F := fieldOf(fa.X.Type(), fa.Field)
+				if !(T == "profile.Location" && F == "Line") && !(T == "profile.Sample" && F == "Location") {
+					continue
+				}
+				// innermost loop containing the store that also reads the same field of the same object
+				var hdr *ssa.BasicBlock
+				for d := b; d != nil && hdr == nil; d = d.Idom() {
+					isHdr := false
+					for _, pred := range d.Preds {
+						if d.Dominates(pred) {
+							isHdr = true
+						}
+					}
+					if !isHdr {
+						continue
+					}
+					loop := naturalLoop(d)
+					if !loop[b] {
+						continue
+					}
+					// the object must be the same one on every iteration of this loop
+					if def, ok := fa.X.(ssa.Instruction); ok && loop[def.Block()] {
+						continue
+					}
+					reads := false
+					for lb := range loop {
+						for _, i2 := range lb.Instrs {
+							if fa2, ok := i2.(*ssa.FieldAddr); ok && fa2 != fa && fa2.Field == fa.Field && sameNode(fa2.X, fa.X) {
+								reads = true
+							}
+						}
+					}
+					if reads {
+						hdr = d
+					}
+				}
+				nSt++
+				key := fmt.Sprintf("first-match:%s:%s.%s", f.Name(), T, F)
+				if hdr == nil {
+					c.ok("C11-R8", key, p.relFile(st.Pos()), T+"."+F+" is re-sliced outside the loop that scans it in "+f.Name(), "no enclosing loop reads the same field of the same object")
+					continue
+				}
+				loop := naturalLoop(hdr)
+				again := false
+				seen := map[*ssa.BasicBlock]bool{}
+				var walk func(x *ssa.BasicBlock)
+				walk = func(x *ssa.BasicBlock) {
+					for _, sc := range x.Succs {
+						if sc == hdr {
+							again = true
+							return
+						}
+						if loop[sc] && !seen[sc] {
+							seen[sc] = true
+							walk(sc)
+						}
+					}
+				}
+				walk(b)
+				if again {
+					c.bad("C11-R8", key, p.relFile(st.Pos()), f.Name()+" re-slices "+T+"."+F+" inside the loop that scans it and keeps scanning: the index now refers to the shortened slice, so a second matching frame cuts again and the lowest matching frame (and those between the matches) are lost")
+				} else {
+					c.ok("C11-R8", key, p.relFile(st.Pos()), f.Name()+" leaves the scan right after re-slicing "+T+"."+F, "the loop header is unreachable from the store inside the loop")
+				}
+			}
+		}
+	}
+	if nSt < 3 {
+		c.undecided("C11-R8", "first-match", "", fmt.Sprintf("expected the re-slices of Location.Line and Sample.Location in Prune/PruneFrom, found %d", nSt))
+	}
+}
+
+// sameCellOrValue: the same SSA value, or loads of / references to the same captured cell.
+func sameCellOrValue(a, b ssa.Value) bool {
+	if a == b {
+		return true
+	}
+	cellOf := func(v ssa.Value) *ssa.Alloc {
+		if ld, ok := v.(*ssa.UnOp); ok && ld.Op == token.MUL {
+			c, _ := resolveCell(ld.X)
+			return c
+		}
+		return nil
+	}
+	ca, cb := cellOf(a), cellOf(b)
+	return ca != nil && ca == cb
+}
+
+func sameConstOrValue(a, b ssa.Value) bool {
+	if a == b {
+		return true
+	}
+	ka, ok1 := a.(*ssa.Const)
+	kb, ok2 := b.(*ssa.Const)
+	if ok1 && ok2 && ka.Value != nil && kb.Value != nil {
+		return ka.Value.ExactString() == kb.Value.ExactString()
+	}
+	return false
+}
+
+// nestingDepth: the number of natural loops of the function that contain b.
+func nestingDepth(b *ssa.BasicBlock) int {
+	n := 0
+	for _, h := range b.Parent().Blocks {
+		isHdr := false
+		for _, pred := range h.Preds {
+			if h.Dominates(pred) {
+				isHdr = true
+			}
+		}
+		if isHdr && naturalLoop(h)[b] {
+			n++
+		}
+	}
+	return n
 }
